@@ -155,10 +155,10 @@ def noscript_text_trigger(doc):
     return False
 
 
-def run_roundtrip(doc, opts, enc, walker, prior=None):
+def run_roundtrip(doc, opts, enc, walker, prior=None, namespace=True):
     from html5lib.serializer import HTMLSerializer
     markup = G.writer(doc)
-    tree, p = h5.parse(markup, builder=walker, full_tree=True)
+    tree, p = h5.parse(markup, builder=walker, full_tree=True, namespace=namespace)
     s = HTMLSerializer(inject_meta_charset=False, **opts)
     w = h5.walk(tree, walker)
     if prior is not None:
@@ -187,7 +187,9 @@ def check_case(case):
         # a comment cannot carry a character reference: such a document has no serialisation in that encoding at all
         return Verdict("excluded", finding="comment not expressible in the output encoding")
     try:
-        got0, out, got, ser = run_roundtrip(doc, opts, enc, walker, case.get("prior"))
+        got0, out, got, ser = run_roundtrip(doc, opts, enc, walker, case.get("prior"), bool(case.get("namespace", True)))
+        if not case.get("namespace", True):
+            got0 = [(r[0], r[1], G.HTML_NS if r[1] == "elem" and r[2] is None else r[2]) + tuple(r[3:]) if r[1] == "elem" else r for r in got0]
     except Exception as e:
         return Verdict("fail", "%s: %s (opts %s enc %s walker %s) on %s" % (type(e).__name__, short(str(e), 100), opts, enc, walker, short(G.writer(doc), 200)),
                        "exception:" + type(e).__name__, nontrivial=True)
@@ -274,6 +276,8 @@ def run_shard(desc, seed, tier):
         doc = G.decode_document(data, size=desc["size"])
         opts, enc, walker = decode_opts(Dec(odata))
         case = {"doc": doc, "opts": opts, "encoding": enc, "walker": walker}
+        if odata[-2] % 5 == 0:
+            case["namespace"] = False      # the tree that is serialized was built with namespaceHTMLElements=False
         k = odata[-1] % 8
         if k >= 4:
             case["prior"] = {"encoding": [None, "utf-8", "koi8-r", "utf-8"][k - 4], "walked": (odata[-2] % 4) * 3}
